@@ -629,7 +629,8 @@ Definition CallPost (input fut D : list N) (o : arr) (p budget : N) (res : call_
     (cr_status res = HasMoreOutput -> p + cr_out res = N.min (N.min (p + budget) USIZE_MAX) (alen o))) \/
    (cr_status res = fin /\
     cr_in res + N.of_nat (length extra) = N.of_nat (length input) + N.of_nat (length fut) /\
-    D ++ W = PB)).
+    D ++ W = PB /\
+    DI (cr_dec res) (skipn (N.to_nat (cr_in res)) input ++ fut) (D ++ W) /\ d_state (cr_dec res) = DoneForever)).
 
 Lemma fuel_ok (l : list N) k : (k <= 12)%nat -> N.of_nat (length l) < 2 ^ 57 -> (16 * length l + k < 2 ^ 62)%nat.
 Proof.
@@ -711,11 +712,22 @@ Proof.
       destruct zl eqn:Ezl; cbn [orb andb negb] in Hprog, Hfin |- *.
       - rewrite Hprog, Hfin, (Hzad eq_refl). destruct (adler32 1 PB =? A); reflexivity.
       - destruct (has flags F_COMPUTE); reflexivity. }
+    assert (HdoneF : forall chk0, chk0 = chkD (D ++ W) ->
+              DI (write_back (rr c) (st c) c 0 (N.land (bb c) (N.ones 0)) chk0) (inp c ++ fut) (D ++ W)).
+    { intros chk0 Hc0.
+      assert (HKo : Kof (write_back (rr c) (st c) c 0 (N.land (bb c) (N.ones 0)) chk0) = chk0).
+      { unfold Kof, write_back. cbn [d_state d_check]. rewrite Est. reflexivity. }
+      unfold DI. rewrite HKo. split; [|exact Hc0].
+      unfold CoreD. cbn [write_back d_state d_num_bits d_bit_buf d_counter d_check d_zadler].
+      split; [intros _; reflexivity|]. split; [exact Hza|].
+      rewrite Est. unfold ShR. split; [reflexivity|]. split; [exact Hrem|]. split; [exact Hout|exact Hzad]. }
     destruct need eqn:ENA.
     + rewrite Hst. cbv beta iota; unfold CallPost; cbn [cr_status cr_in cr_out cr_buf cr_dec]. fold W.
-      split; [rewrite Homc; reflexivity|]. split; [lia|]. split; [fold omax; lia|]. right. split; [reflexivity|]. split; [exact Hcnt|exact Hout].
+      split; [rewrite Homc; reflexivity|]. split; [lia|]. split; [fold omax; lia|]. right. split; [reflexivity|]. split; [exact Hcnt|]. split; [exact Hout|].
+      rewrite Hskp. split; [|exact Est]. apply HdoneF. rewrite Hprog. reflexivity.
     + rewrite Hst. cbv beta iota; unfold CallPost; cbn [cr_status cr_in cr_out cr_buf cr_dec]. fold W.
-      split; [rewrite Homc; reflexivity|]. split; [lia|]. split; [fold omax; lia|]. right. split; [reflexivity|]. split; [exact Hcnt|exact Hout].
+      split; [rewrite Homc; reflexivity|]. split; [lia|]. split; [fold omax; lia|]. right. split; [reflexivity|]. split; [exact Hcnt|]. split; [exact Hout|].
+      rewrite Hskp. split; [|exact Est]. apply HdoneF. rewrite Hprog. reflexivity.
   - (* suspended for input *)
     cbv iota.
     unfold csub. replace (pos c <=? omax) with true by (symmetry; apply N.leb_le; lia). cbn [bind].
@@ -787,7 +799,7 @@ Proof.
     assert (Hsh1 : N.of_nat (length (pending ++ piece)) < 2 ^ 57) by (rewrite !app_length in *; lia).
     destruct (call_gen d (pending ++ piece) (concat (map (fun it => fst (fst (fst it))) more) ++ later) D o p budget
                 (or_introl HMORE) HD Hgeo Hrep Hacc Hsh1) as (r & Ed & HCP).
-    rewrite Ed. unfold CallPost in HCP. cbv zeta in HCP. destruct HCP as (Hal & Hle & _ & [(Hs & HD' & Hnmi & _)|(Hs & Hin & Hout)]).
+    rewrite Ed. unfold CallPost in HCP. cbv zeta in HCP. destruct HCP as (Hal & Hle & _ & [(Hs & HD' & Hnmi & _)|(Hs & Hin & Hout & _)]).
     + assert (Hlast' : cr_status r = HasMoreOutput \/ (cr_status r = NeedsMoreInput /\ concat (map (fun it => fst (fst (fst it))) more) ++ later <> [])).
       { destruct Hs as [Hs|Hs]; [right; split; [exact Hs|exact (proj1 (Hnmi Hs))]|left; exact Hs]. }
       assert (Hsk : N.of_nat (length (skipn (N.to_nat (cr_in r)) (pending ++ piece))) + cr_in r = N.of_nat (length (pending ++ piece)))
